@@ -395,8 +395,25 @@ def family_rules(draw, idx, ctx):
                                           ('call', 'Tval', [('ref', x)], []),
                                           ('apply', ('rx', '[ab]'), ('py', 'lambda v: (v, %s)' % x))]))
     name = 'F%d' % idx
-    fam = draw(st.integers(0, 12))
+    fam = draw(st.integers(0, 14))
     x = draw(st.sampled_from(['x', 'y', 'n']))
+    if fam >= 13:
+        # a class whose `let` (omitted) or plain member is used inside compound arguments of the
+        # members that follow: symbolic count, inline Python, nested call, keyword argument
+        kind = draw(st.sampled_from(['let', 'let', 'field']))
+        uses = [
+            ('call', 'Tpair', [('rep', ('lit', 'a'), 'n', 'n')], []),
+            ('call', 'Tkw', [('where', ('ref', 'W'), ('py', 'lambda v: len(v) >= n')), ('py', 'n')], []),
+            ('call', 'Tpair', [('call', 'Tkw', [('rep', ('rx', '[ab]'), None, 'n'), ('ref', 'n')], [])], []),
+            ('call', 'Tkw', [], [('v', ('py', 'n + 1')), ('p', ('left', ('rep', ('lit', 'a'), 'n', 'n'), ('opt', ('lit', 'b'))))]),
+            ('call', 'Tcap3', [('rep', ('lit', 'b'), None, 'n'), ('ref', 'n')], []),
+        ]
+        k = draw(st.integers(1, 2))
+        chosen = draw(st.permutations(uses))[:k]
+        members = [(kind, 'n', ('ref', 'D'))]
+        for i, u in enumerate(chosen):
+            members.append(('field', 'u%d' % i, u))
+        return [('class', name, None, members)]
     if fam == 10:
         # static scoping: an inner let of the same name in an EARLIER alternative never binds
         # (its token "Q" is not in any input), so the later use still denotes the outer binding
